@@ -169,6 +169,13 @@ static void on_doc(vf_gen *g, void *u)
     vf_mutants(g->doc.bytes, g->doc.len, mscratch1, 4096, on_mut1, &g->doc);
 }
 
+static void on_doc_nomut(vf_gen *g, void *u)
+{
+    (void) u;
+    if (vf_deadline_passed()) { g->stop = true; return; }
+    if (take()) { vf_count(CT_DOCS, 1); eval_input(g->doc.bytes, g->doc.len, vf_shape(&g->doc), 0); }
+}
+
 /* integer and length-prefix width boundaries: every width x values around every boundary, as value, string length, bytes length and name length */
 static void width_family(void)
 {
@@ -437,6 +444,12 @@ static void worker(int w, int W, uint64_t start)
         g.cb = on_doc;
         vf_gen_run(&g);
     }
+    /* sibling family: every pair of small sibling subtrees (inner names "" and "a") with all their mutants (thorough: triples too);
+     * every triple as it is */
+    memset(&g, 0, sizeof g);
+    g.cb = on_doc;
+    vf_sibling_run_ar(&g, 2, vf_g.thorough ? 3 : 2);
+    if (!vf_g.thorough) { memset(&g, 0, sizeof g); g.cb = on_doc_nomut; vf_sibling_run_ar(&g, 3, 3); }
 }
 
 static void replay_main(void)
